@@ -1,5 +1,6 @@
 import asyncio
 import functools as ft
+import inspect
 import itertools as it
 import json
 import logging
@@ -81,6 +82,19 @@ class Method:
                (other.method, other.name, other.context, other.positional)
 
 
+@ft.lru_cache(None)
+def _implicit_parameter(func: Callable[..., Any]) -> Optional[str]:
+    """
+    Returns the name of the parameter a bound method fills in implicitly (``self`` or ``cls``).
+    """
+
+    param = next(iter(inspect.signature(func).parameters.values()), None)
+    if param is not None and param.kind in (param.POSITIONAL_ONLY, param.POSITIONAL_OR_KEYWORD):
+        return param.name
+
+    return None
+
+
 class ViewMethod(Method):
     """
     View method.
@@ -108,7 +122,15 @@ class ViewMethod(Method):
         view = self.view_cls(context) if self.context else self.view_cls()
         method = getattr(view, self.method_name)
 
-        method_params = self.validator.validate_method(method, params, **self.validator_args)
+        # validators cache signatures per callable, so the parameters are validated against the function the bound
+        # method wraps (without its implicit first parameter) and not against the bound method itself: that one is
+        # created for this very request and would keep the view instance and its context alive in the cache
+        func = getattr(method, '__func__', None)
+        implicit = _implicit_parameter(func) if func is not None else None
+        if implicit is not None:
+            method_params = self.validator.validate_method(func, params, exclude=(implicit,), **self.validator_args)
+        else:
+            method_params = self.validator.validate_method(method, params, **self.validator_args)
 
         return ft.partial(method, **method_params)
 
